@@ -588,8 +588,108 @@ def b_collector_histories(tier):
     return b
 
 
+def b_registered_constants(tier):
+    """Dispatch of objects whose class is registered as a constant class AFTER import (and unregistered again)."""
+    import decimal
+    from fractions import Fraction
+    import pymbolic.primitives as p
+    from pymbolic.mapper import Collector, IdentityMapper, Mapper, WalkMapper
+    b = BoundedRun("registered-constant-dispatch", rule="phases {default, Fraction registered, Fraction + Decimal registered, Decimal unregistered, all unregistered}: an instrumented "
+                   "mapper, IdentityMapper, WalkMapper and a Collector applied (through __call__ and rec, with extra arguments) to an instance of each class and to trees "
+                   "containing one: while the class is registered map_constant is reached with the object and the extra arguments (identity returns the very object, the walk "
+                   "visits it, the collector folds it in); while it is not, the object is refused with ValueError - never routed to another handler", bound="5 phases x 2 classes x 4 mappers x 3 trees",
+                   functions=["Mapper.map_foreign", "Mapper.__call__", "Mapper.rec", "register_constant_class", "unregister_constant_class"])
+    x = trees.X
+    objs = {"Fraction": Fraction(3, 2), "Decimal": decimal.Decimal("2.5")}
+
+    class Spy(Mapper):
+        def __init__(self):
+            self.log = []
+
+        def map_constant(self, e, *a, **kw):
+            self.log.append(("constant", e, a, tuple(sorted(kw.items()))))
+            return ("const", e)
+
+        def map_variable(self, e, *a, **kw):
+            return ("var", e.name)
+
+        def map_sum(self, e, *a, **kw):
+            return ("sum", tuple(self.rec(c, *a, **kw) for c in e.children))
+
+        def map_call(self, e, *a, **kw):
+            return ("call", tuple(self.rec(c, *a, **kw) for c in e.parameters))
+
+    class Vis(WalkMapper):
+        def __init__(self):
+            self.seen = []
+
+        def visit(self, e, *a, **kw):
+            self.seen.append(e)
+            return True
+
+    class Consts(Collector):
+        def map_constant(self, e, *a, **kw):
+            return {e}
+
+    def phase(registered):
+        for cname, o in objs.items():
+            reg = cname in registered
+            forms = {"bare": o, "in-sum": p.Sum((x, o)), "in-call": p.Call(p.Variable("f"), (o, x))}
+            for fname, e in forms.items():
+                for via in ("call", "rec"):
+                    m = Spy()
+                    r = outcome.run(lambda: (m(e, 7, k=1) if via == "call" else m.rec(e, 7, k=1)))
+                    b.case(("spy", tuple(sorted(registered)), cname, fname, via), sample=dict(registered=sorted(registered), cls=cname, form=fname, via=via))
+                    hit = [t for t in m.log if t[1] is o]
+                    if reg:
+                        ok = r[0] == "val" and len(hit) == 1 and hit[0][2] == (7,) and hit[0][3] == (("k", 1),)
+                    else:
+                        ok = r[0] == "exc" and issubclass(r[1], ValueError) and not hit
+                    if not ok:
+                        b.fail(Failure("registered-constant-dispatch", f"what=spy registered={sorted(registered)} cls={cname} form={fname} via={via}",
+                                       dict(kind="regdispatch", registered=sorted(registered), cls=cname, form=fname, via=via),
+                                       expected="map_constant(obj, 7, k=1) exactly once" if reg else "ValueError, no handler reached", actual=f"{outcome.describe(r)[:120]} log={m.log!r}"[:250],
+                                       functions=["Mapper.map_foreign"]))
+                r = outcome.run(lambda: IdentityMapper()(e))
+                b.case(("ident", tuple(sorted(registered)), cname, fname))
+                ok = (r[0] == "val" and (r[1] is e)) if reg else (r[0] == "exc" and issubclass(r[1], ValueError))
+                if not ok:
+                    b.fail(Failure("registered-constant-dispatch", f"what=identity registered={sorted(registered)} cls={cname} form={fname}",
+                                   dict(kind="regdispatch", registered=sorted(registered), cls=cname, form=fname, via="identity"), expected="the very object" if reg else "ValueError",
+                                   actual=outcome.describe(r)[:200], functions=["Mapper.map_foreign", "IdentityMapper.map_constant"]))
+                v = Vis()
+                r = outcome.run(lambda: v(e))
+                b.case(("walk", tuple(sorted(registered)), cname, fname))
+                ok = (r[0] == "val" and any(s_ is o for s_ in v.seen)) if reg else (r[0] == "exc" and issubclass(r[1], ValueError))
+                if not ok:
+                    b.fail(Failure("registered-constant-dispatch", f"what=walk registered={sorted(registered)} cls={cname} form={fname}",
+                                   dict(kind="regdispatch", registered=sorted(registered), cls=cname, form=fname, via="walk"), expected="visited" if reg else "ValueError",
+                                   actual=f"{outcome.describe(r)[:120]} seen={v.seen!r}"[:250], functions=["Mapper.map_foreign", "WalkMapper.map_constant"]))
+                r = outcome.run(lambda: Consts()(e))
+                b.case(("collect", tuple(sorted(registered)), cname, fname))
+                ok = (r[0] == "val" and o in r[1]) if reg else (r[0] == "exc" and issubclass(r[1], ValueError))
+                if not ok:
+                    b.fail(Failure("registered-constant-dispatch", f"what=collect registered={sorted(registered)} cls={cname} form={fname}",
+                                   dict(kind="regdispatch", registered=sorted(registered), cls=cname, form=fname, via="collect"), expected="folded in" if reg else "ValueError",
+                                   actual=outcome.describe(r)[:200], functions=["Mapper.map_foreign", "Collector"]))
+    phase(set())
+    p.register_constant_class(Fraction)
+    try:
+        phase({"Fraction"})
+        p.register_constant_class(decimal.Decimal)
+        try:
+            phase({"Fraction", "Decimal"})
+        finally:
+            p.unregister_constant_class(decimal.Decimal)
+        phase({"Fraction"})
+    finally:
+        p.unregister_constant_class(Fraction)
+    phase(set())
+    return b
+
+
 def bounded(tier, seed, procs):
-    return [b_walk(tier), b_identity(tier), b_combine(tier), b_dispatch(tier), b_unhandled(tier), b_callback(tier), b_collector_histories(tier)]
+    return [b_walk(tier), b_identity(tier), b_combine(tier), b_dispatch(tier), b_unhandled(tier), b_callback(tier), b_collector_histories(tier), b_registered_constants(tier)]
 
 
 def b_callback(tier):
@@ -673,7 +773,7 @@ def count_nodes(e):
 
 def replay(case):
     kind = case.get("kind")
-    table = {"walk": b_walk, "identity": b_identity, "combine": b_combine, "unhandled": b_unhandled, "collector-history": b_collector_histories}
+    table = {"walk": b_walk, "identity": b_identity, "combine": b_combine, "unhandled": b_unhandled, "collector-history": b_collector_histories, "regdispatch": b_registered_constants}
     f = table.get(kind, b_dispatch)
     b = f("quick")
     return any(x.case == case for x in b.failures)
